@@ -508,6 +508,12 @@ class CommitHandler(processor.CommitHandler):
         result = {}
         if props is not None:
             for name, value in props.items():
+                # The parser hands out names and values as bytes;
+                # revision properties are text.
+                if isinstance(name, bytes):
+                    name = self._utf8_decode("property name", name)
+                if isinstance(value, bytes):
+                    value = self._utf8_decode(f"property {name}", value)
                 if value is None:
                     self.warning(f"converting None to empty string for property {name}")
                     result[name] = ""
